@@ -2671,6 +2671,16 @@ def bound_native(I, fr, bn, args, kwargs, n):
         if name == 'clear':
             del b.items[:]
             return None
+        if name == 'remove' and len(args) == 1:
+            for i_, x_ in enumerate(b.items):
+                if x_ is args[0] or (not isinstance(x_, Obj) and not isinstance(args[0], Obj) and
+                                     I.struct_eq(x_, args[0])):
+                    del b.items[i_]
+                    return None
+                if isinstance(x_, Obj) and isinstance(args[0], Obj) and x_.ci is not None and \
+                        I.repo.find_method(x_.ci, '__eq__', missing_ok=True):
+                    raise Unsupported('list.remove over objects with their own __eq__ (equality of model objects)', n)
+            raise _RaisedExc(Raised('ValueError', n))
         if name == 'sort' and not args and not kwargs:
             items = list(b.items)
             for i in range(1, len(items)):          # insertion sort through the ordering oracle (stable)
